@@ -4,5 +4,5 @@
 import sys
 sys.path[:0] = ['/repo' + "/pulser-core", '/repo' + "/pulser-simulation", "/verif"]
 from symx.replay import replay
-sys.exit(replay(check='checks.c09', kernel='l1', shape={'own': {'clock': 1, 'local': True, 'slots': ['pulseA'], 'mod': True, 'pj': 'derived', 'targets_a': ['q0'], 'targets_b': ['q1']}, 'op': ['add_target', 'diff'], 'maxseq': True, 'nbarriers': 1},
-                assignment={'max_sequence_duration': 3, 'own.min_duration': 1, 'own.tr': 1, 'own.min_retarget': 2335, 'own.fixed_retarget': 2333, 'own.s0.dur': 1, 'buf#1.start': 0, 'buf#1.end': 0, 'buf#2.start': 0, 'buf#2.end': 0}, label='c09:raise_unchanged'))
+sys.exit(replay(check='checks.c09', kernel='l1', shape={'own': {'clock': 1, 'local': True, 'slots': ['pulseA'], 'mod': True, 'pj': 'custom', 'targets_a': ['q0'], 'targets_b': ['q1']}, 'op': ['add_target', 'diff'], 'maxseq': True, 'nbarriers': 1},
+                assignment={'max_sequence_duration': 4, 'own.min_duration': 1, 'own.tr': 1, 'own.pjt': 0, 'own.min_retarget': 5, 'own.fixed_retarget': 2, 'own.s0.dur': 1, 'buf#1.start': 0, 'buf#1.end': 0, 'buf#2.start': 0, 'buf#2.end': 1}, label='c09:raise_unchanged'))
